@@ -263,7 +263,9 @@ func (c *Ctx) keepAliveValue() {
 	fn := r.Accept
 	g := paths.New(c.P, fn, 1)
 	var kaHost *ssa.Function
-	g.Expand = func(callee *ssa.Function, site ssa.CallInstruction) bool { return kaHost != nil && callee == kaHost && kaHost != fn }
+	g.Expand = func(callee *ssa.Function, site ssa.CallInstruction) bool {
+		return kaHost != nil && callee == kaHost && kaHost != fn
+	}
 	setDefault := func(n paths.Node) bool {
 		call := paths.CallAt(n)
 		if call == nil || !ir.IsMethod(call.Common(), pkgMessage, "ConnectMessage", "SetKeepAlive") {
